@@ -140,9 +140,11 @@ impl GenerationSource {
     pub fn choose_index(&mut self, max: usize) -> (r: usize)
         ensures max > 0 ==> r < max, max == 0 ==> r == 0, r == old(self).draw_index(max)
     { unimplemented!() }
+    /// the value the next gen_range(min, max) call returns (same role as draw_index)
+    pub uninterp spec fn draw_range(&self, min: usize, max: usize) -> usize;
     #[verifier::external_body]
     pub fn gen_range(&mut self, min: usize, max: usize) -> (r: usize)
-        ensures min < max ==> min <= r < max, min >= max ==> r == min
+        ensures min < max ==> min <= r < max, min >= max ==> r == min, r == old(self).draw_range(min, max)
     { unimplemented!() }
     #[verifier::external_body]
     pub fn gen_bool(&mut self) -> (r: bool) ensures r == final(self).last_bool() { unimplemented!() }
